@@ -29,16 +29,16 @@ import (
 // an internal panic is fatal); the parent turns a dead worker into a violation and restarts without that op kind.
 
 type c18op struct {
-	Kind   string `json:"k"`
-	P      uint64 `json:"p,omitempty"` // parent inode / inode
-	Name   string `json:"n,omitempty"`
-	P2     uint64 `json:"p2,omitempty"`
-	Name2  string `json:"n2,omitempty"`
-	Off    int    `json:"off,omitempty"`
-	Data   string `json:"d,omitempty"`
-	Size   uint64 `json:"sz,omitempty"`
-	N      int    `json:"cnt,omitempty"`
-	Class  string `json:"c,omitempty"` // classification used for signatures and for skipping after a fatal error
+	Kind  string `json:"k"`
+	P     uint64 `json:"p,omitempty"` // parent inode / inode
+	Name  string `json:"n,omitempty"`
+	P2    uint64 `json:"p2,omitempty"`
+	Name2 string `json:"n2,omitempty"`
+	Off   int    `json:"off,omitempty"`
+	Data  string `json:"d,omitempty"`
+	Size  uint64 `json:"sz,omitempty"`
+	N     int    `json:"cnt,omitempty"`
+	Class string `json:"c,omitempty"` // classification used for signatures and for skipping after a fatal error
 }
 
 func (o c18op) String() string {
